@@ -114,6 +114,7 @@ struct GenOpts {
     int max_enum = 12;
     bool long_names = false;
     bool unique_names = false;
+    double p_sub_spec = 0;        // sub-tree ports that carry an argument spec ("sub/:i"): the spec filters every message routed below (C04)
     double p_slash_leaf = 0;      // leaf ports whose name ends in '/' although they have no sub-table (C18)
 };
 
@@ -166,7 +167,7 @@ static inline Table *gen_table(Tree &t, Rng &r, const GenOpts &o, int depth)
             if(clash) { if(!r.chance(0.2)) --i; continue; }   // retry the slot (or give it up)
         }
         bool is_sub = !pd->name.empty() && pd->name.back() == '/' && !slash_leaf;
-        if(is_sub) pd->sub = gen_table(t, r, o, depth + 1);
+        if(is_sub) { pd->sub = gen_table(t, r, o, depth + 1); if(r.chance(o.p_sub_spec)) { static const char *SS[] = {":i", ":f:i", ":i:f:s", ":T:F", "::i"}; pd->spec = SS[r.below(5)]; } }
         else if(r.chance(o.p_spec)) pd->spec = SPECS[r.below(7)];
         pd->full = pd->name + pd->spec;
         pd->pattern = parse_name(pd->name, pd->spec);
@@ -301,7 +302,10 @@ static inline void ref_dispatch(const Table *tb, const std::string &addr, size_t
             if(tv == 0) continue;
             out.push_back(Expect{p->id, off, obj, optional || tv < 0, p.get()});
         } else {
-            ref_dispatch(p->sub, addr, off + consumed, types, token(p->id, first_index(rel.c_str())), optional, out);
+            // a spec on the sub-tree port admits or rejects the whole message by its type tags
+            int tv = p->pattern.has_spec ? pat::type_verdict(p->pattern, types) : 1;
+            if(tv == 0) continue;
+            ref_dispatch(p->sub, addr, off + consumed, types, token(p->id, first_index(rel.c_str())), optional || tv < 0, out);
         }
     }
 }
